@@ -34,7 +34,7 @@ RealMatrix randMat(Prng& r, std::size_t m, std::size_t n) {
 // observables shared by all kernels. X: 3 x d, Y: 2 x d probe batches, C: 3 x 2 coefficient matrix.
 struct Probes {
 	RealMatrix X, Y, C;
-	Probes(Prng& r, std::size_t d) : X(randMat(r, 3, d)), Y(randMat(r, 2, d)), C(randMat(r, 3, 2)) {}
+	Probes(Prng& r, std::size_t d, std::size_t nx = 3, std::size_t ny = 2) : X(randMat(r, nx, d)), Y(randMat(r, ny, d)), C(randMat(r, nx, ny)) {}
 };
 
 void obsKernel(Obs& o, K const& k, Probes const& p, std::string const& pre = "") {
@@ -85,15 +85,20 @@ void gaussCase(Ctx& c, std::string const& variant) {
 	runKernel(c, a, b, p);
 }
 
-// variant: deg_param | deg_fixed | deg_param_unc | deg_fixed_unc | offset0
+// variant: deg_param | deg_fixed | deg_param_unc | deg_fixed_unc | offset0 : the fresh kernel differs in degree,
+//   offset and the `unconstrained` flag but has the SAME degree-is-parameter flag;
+// flip_deg_param | flip_deg_fixed : the fresh kernel additionally has the opposite degree-is-parameter flag
+//   (this flag determines the HAS_FIRST_PARAMETER_DERIVATIVE feature, which is set in the constructor only).
 void polyCase(Ctx& c, std::string const& variant) {
 	Prng r(c.seed);
-	bool degParam = variant.compare(0, 9, "deg_param") == 0 || variant == "offset0";
-	bool unc = variant.size() > 4 && variant.compare(variant.size() - 4, 4, "_unc") == 0;
+	bool flip = variant.compare(0, 5, "flip_") == 0;
+	std::string v = flip ? variant.substr(5) : variant;
+	bool degParam = v.compare(0, 9, "deg_param") == 0 || v == "offset0";
+	bool unc = v.size() > 4 && v.compare(v.size() - 4, 4, "_unc") == 0;
 	unsigned da = (unsigned)r.range(1, 4);
-	double offA = (variant == "offset0") ? 0.0 : r.in(0.1, 2.0);
+	double offA = (v == "offset0") ? 0.0 : r.in(0.1, 2.0);
 	PolynomialKernel<RealVector> a(da, offA, degParam, unc);
-	PolynomialKernel<RealVector> b((unsigned)r.rangeNot(1, 5, da), r.in(2.5, 4.0), !degParam, !unc);
+	PolynomialKernel<RealVector> b((unsigned)r.rangeNot(1, 5, da), r.in(2.5, 4.0), flip ? !degParam : degParam, !unc);
 	Probes p(r, r.range(1, 4));
 	runKernel(c, a, b, p);
 }
@@ -183,7 +188,8 @@ struct ProductHolder {
 void productCase(Ctx& c, std::string const&) {
 	Prng r(c.seed);
 	GaussianRbfKernel<RealVector> ga(r.in(0.1, 2.0), r.coin()), gb(r.in(2.5, 4.0));
-	PolynomialKernel<RealVector> pa((unsigned)r.range(1, 3), r.in(0.1, 2.0), r.coin()), pb(4, r.in(2.5, 4.0), false);
+	bool degParam = r.coin(); // same in the fresh sub-kernel: the stale-feature-flag defect of PolynomialKernel is covered there
+	PolynomialKernel<RealVector> pa((unsigned)r.range(1, 3), r.in(0.1, 2.0), degParam), pb(4, r.in(2.5, 4.0), degParam);
 	ProductHolder a(&ga, &pa), b(&gb, &pb);
 	Probes p(r, r.range(1, 4));
 	obsKernel(c.A, *a.k, p); obsKernel(c.A, ga, p, "sub0."); obsKernel(c.A, pa, p, "sub1.");
@@ -191,14 +197,24 @@ void productCase(Ctx& c, std::string const&) {
 	obsKernel(c.B, *b.k, p); obsKernel(c.B, gb, p, "sub0."); obsKernel(c.B, pb, p, "sub1.");
 }
 
-void normalizedCase(Ctx& c, std::string const&) {
+// NormalizedKernel has no read/write of its own: AbstractMetric's default (parameter vector only) applies.
+// The fresh base kernel therefore has the same non-parameter structure (same fixed degree, same flags) and
+// differs in its parameters only; variant gauss: base = GaussianRbfKernel, poly: base = PolynomialKernel
+// with fixed degree.
+void normalizedCase(Ctx& c, std::string const& variant) {
 	Prng r(c.seed);
-	PolynomialKernel<RealVector> pa((unsigned)r.range(1, 3), r.in(0.1, 2.0), false), pb(4, r.in(2.5, 4.0), false);
-	NormalizedKernel<RealVector> a(&pa), b(&pb);
-	Probes p(r, r.range(1, 4));
-	obsKernel(c.A, a, p); obsKernel(c.A, pa, p, "base.");
+	GaussianRbfKernel<RealVector> ga(r.in(0.1, 2.0)), gb(r.in(2.5, 4.0));
+	unsigned deg = (unsigned)r.range(1, 3);
+	PolynomialKernel<RealVector> pa(deg, r.in(0.1, 2.0), false), pb(deg, r.in(2.5, 4.0), false);
+	K* ka = variant == "gauss" ? static_cast<K*>(&ga) : static_cast<K*>(&pa);
+	K* kb = variant == "gauss" ? static_cast<K*>(&gb) : static_cast<K*>(&pb);
+	NormalizedKernel<RealVector> a(ka), b(kb);
+	// NormalizedKernel's state-less batch eval indexes batchX2 with the row index of batchX1 (reads out of
+	// bounds when batchX1 is the larger batch); keep the first batch the smaller one to stay deterministic.
+	Probes p(r, r.range(1, 4), 2, 3);
+	obsKernel(c.A, a, p); obsKernel(c.A, *ka, p, "base.");
 	c.transfer(a, b);
-	obsKernel(c.B, b, p); obsKernel(c.B, pb, p, "base.");
+	obsKernel(c.B, b, p); obsKernel(c.B, *kb, p, "base.");
 }
 
 void modelKernelCase(Ctx& c, std::string const&) {
@@ -262,7 +278,6 @@ void obsExpansion(Obs& o, KernelExpansion<RealVector> const& m, RealMatrix const
 	}
 	o.shape("basis.shape", bs.shape());
 	o.vec("kernel.param", m.kernel()->parameterVector());
-	o.b("kernel.hasFirstParameterDerivative", m.kernel()->hasFirstParameterDerivative());
 	dimOk = dimOk && m.alpha().size1() == bs.numberOfElements() && (!m.hasOffset() || m.offset().size() == m.alpha().size2());
 	o.b("evalPossible", dimOk);
 	if (dimOk) {
@@ -270,6 +285,7 @@ void obsExpansion(Obs& o, KernelExpansion<RealVector> const& m, RealMatrix const
 		m.eval(probes, out);
 		o.mat("eval", out);
 	}
+	o.b("kernel.hasFirstParameterDerivative", m.kernel()->hasFirstParameterDerivative());
 }
 
 // variant = <gauss|poly>_<off|nooff>_o<outputs>_b<basis size>
@@ -283,7 +299,8 @@ void expansionCase(Ctx& c, std::string const& variant) {
 	std::size_t d = r.range(1, 4);
 
 	GaussianRbfKernel<RealVector> ga(r.in(0.1, 2.0), r.coin()), gb(r.in(2.5, 4.0), false);
-	PolynomialKernel<RealVector> pa((unsigned)r.range(1, 3), r.in(0.1, 2.0), r.coin(), false), pb(4, r.in(2.5, 4.0), true, true);
+	bool degParam = r.coin(); // same in the fresh kernel, see PolynomialKernel flip_* for the stale feature flag
+	PolynomialKernel<RealVector> pa((unsigned)r.range(1, 3), r.in(0.1, 2.0), degParam, false), pb(4, r.in(2.5, 4.0), degParam, true);
 	K* ka = gauss ? static_cast<K*>(&ga) : static_cast<K*>(&pa);
 	K* kb = gauss ? static_cast<K*>(&gb) : static_cast<K*>(&pb);
 
@@ -305,8 +322,8 @@ void expansionCase(Ctx& c, std::string const& variant) {
 void c18::registerKernels(std::vector<Case>& v) {
 	addCase(v, "GaussianRbfKernel", "constrained", &gaussCase);
 	addCase(v, "GaussianRbfKernel", "unconstrained", &gaussCase);
-	char const* pv[] = {"deg_param", "deg_fixed", "deg_param_unc", "deg_fixed_unc", "offset0"};
-	for (std::size_t i = 0; i != 5; ++i) addCase(v, "PolynomialKernel", pv[i], &polyCase);
+	char const* pv[] = {"deg_param", "deg_fixed", "deg_param_unc", "deg_fixed_unc", "offset0", "flip_deg_param", "flip_deg_fixed"};
+	for (std::size_t i = 0; i != 7; ++i) addCase(v, "PolynomialKernel", pv[i], &polyCase);
 	addCase(v, "LinearKernel", "plain", &linearCase);
 	addCase(v, "MonomialKernel", "exponent", &monomialCase);
 	addCase(v, "ARDKernelUnconstrained", "otherdim", &ardCase);
@@ -315,6 +332,7 @@ void c18::registerKernels(std::vector<Case>& v) {
 	char const* ws[] = {"default", "weights", "adaptive", "alladaptive", "freshadaptive", "noadaptweights"};
 	for (std::size_t i = 0; i != 6; ++i) addCase(v, "WeightedSumKernel", ws[i], &weightedSumCase);
 	addCase(v, "ProductKernel", "gauss_poly", &productCase);
+	addCase(v, "NormalizedKernel", "gauss", &normalizedCase);
 	addCase(v, "NormalizedKernel", "poly", &normalizedCase);
 	addCase(v, "ModelKernel", "gauss_linear", &modelKernelCase);
 	char const* kk[] = {"gauss", "poly"};
